@@ -538,6 +538,10 @@ func (p *P2P) NewStreams() (streams map[lib.Topic]*Stream) {
 		if i == lib.Topic_HEARTBEAT {
 			continue
 		}
+		// only defined topics get a stream: a packet for any other id must hit ErrBadStream in the receive service
+		if _, defined := lib.Topic_name[int32(i)]; !defined {
+			continue
+		}
 		streams[i] = &Stream{
 			topic:        i,
 			msgAssembler: make([]byte, 0),
